@@ -301,13 +301,13 @@ def refit(ctx: Ctx) -> None:
 def check(ctx: Ctx) -> None:
     warnings.filterwarnings("ignore")
     from pfhedge.nn import EntropicRiskMeasure, ExpectedShortfall
-    mc = ctx.tlc("MC_Fit", "MC_Fit.cfg", workers=8)
+    mc = ctx.tlc("MC_Fit", "MC_Fit.cfg" if ctx.tier == "quick" else "MC_Fit_t.cfg", workers=8)
     for a in ("Configure", "MaterialiseSim", "Train", "ZeroGrad", "Simulate", "Forward", "Backward", "Step", "Eval", "VSimulate", "VForward", "AppendHistory", "Finish"):
         if mc.actions.get(a, [0, 0])[1] == 0:
             raise MachineryError(f"Fit.tla: action {a} never taken")
-    ks = (0, 1, 2, 3) if ctx.tier == "thorough" else (0, 1, 3)
+    ks = (0, 1, 2, 3, 6) if ctx.tier == "thorough" else (0, 1, 3)
     cfgs = [{"k": k, "n": n, "ntimes": nt, "validation": v, "optclass": oc, "lazy": lz, "init": ini, "pre_eval": (i % 3 == 1), "extra": False}
-            for i, (k, n, nt, v, oc, lz, ini) in enumerate(itertools.product(ks, (2, 3), (1, 2, 3), (True, False), (True, False), (True, False), ("default", "custom")))]
+            for i, (k, n, nt, v, oc, lz, ini) in enumerate(itertools.product(ks, (2, 3) if ctx.tier == "quick" else (1, 2, 3), (1, 2, 3), (True, False), (True, False), (True, False), ("default", "custom")))]
     # the optimiser instance also owns a parameter outside the model: the learnable w of an OCE criterion
     extra_cfgs = [{"k": k, "n": 3, "ntimes": nt, "validation": v, "optclass": False, "lazy": False, "init": "default", "pre_eval": pe, "extra": True}
                   for k in (1, 2, 3) for nt in (1, 2) for v in (True, False) for pe in (False, True)]
